@@ -28,8 +28,9 @@ with their DISPATCHERS as sinks (item (2) of "what is left" in `Thm/C06_Handover
   `C06_scan_indep_parse_partial` — the same for one `Parser::parse` call of fresh parsers (any `last`): both
   calls succeed; outside a tag `H` is in the same state and the dispatchers are `ObsR false`-related; inside a
   tag the plain run is one hint ahead. This is rung R1 at parser level.
-* `C06_scan_indep_loop_resume` — across a chunk break: if both loops report the same consumed byte count (always, except
-  inside a comment / doctype / CDATA section), the machines left by `break_on_end_of_input` are `Aligned` again.
+* `C06_scan_indep_loop_resume` — across a chunk break: if both loops report the same consumed byte count (chunk ending in
+  text or inside `<`[`/`]name; not after the name, in a comment / doctype / CDATA section), the machines left by
+  `break_on_end_of_input` are `Aligned` again.
 * `C06_scan_indep_first_write_partial` — the same at the API level for the FIRST `write` of a rewriter (`write_fresh`);
   `stayScan_of_noCapture`: controllers that never capture and never remove content satisfy `StayScan`.
 * NOT proved: `Stream` / `Rewriter` level beyond the first `write`, even for R1 (a `write` parses with `last = false` and the two runs
@@ -250,8 +251,9 @@ theorem C06_scan_indep_loop (hside : PhaseOk tbl P = true) (ht : EmitsChecked tb
     mrS.2.2.1, mrL.2.2.1⟩
 
 /-- **C06_scan_indep_loop_resume** (across a chunk break). As `C06_scan_indep_loop`; if moreover the two loops
-report the SAME consumed byte count (`tag_start` = `lexeme_start`: always, except when the chunk ends inside a
-comment, doctype or CDATA section, which the lexer holds back and the scanner does not), the machines left by
+report the SAME consumed byte count (the chunk ends in text, or inside a tag head `<`[`/`]name where
+`tag_start` = `lexeme_start`; NOT after the tag name, nor inside a comment, doctype or CDATA section — those the
+lexer holds back and the scanner does not), the machines left by
 `break_on_end_of_input` — registers adjusted for the next input — are `Aligned` again: the next chunk
 (retained tail ++ new data, the same bytes in both runs) can be parsed from them (`C06_scan_indep_steps`,
 `C06_scan_indep_loop` apply again). -/
@@ -430,6 +432,21 @@ example :
   have hst : R.1.scanC.state = 42 := by decide +kernel
   have hab : genPhaseLabels.at R.1.scanC.state ≠ .inTag := by rw [hst]; decide
   exact ⟨r1, r2, (r3 hab).2, by decide +kernel⟩
+
+/-- `<a b='c'>x</a><d` -/
+def splitInput : Bytes := [60,97,32,98,61,39,99,39,62,120,60,47,97,62,60,100]
+
+/-- non-vacuity of `C06_scan_indep_loop_resume`: a chunk (not the last) ending inside a tag name: both runs hold
+back `<d` (consumed 14), the machines left for the next chunk are aligned -/
+example : Aligned countCtl (Flags.ofNat 1) Gen.Tags.cfg genPhaseLabels ds0
+    (runLoop (envPlain countCtl Gen.Syntax.table Gen.Tags.cfg) splitInput (defaultFuel splitInput)
+      ((Parser.new Gen.Syntax.table ds0 .scan false).machine false)).1
+    (runLoop (envObs countCtl (Flags.ofNat 1) Gen.Syntax.table Gen.Tags.cfg) splitInput (defaultFuel splitInput)
+      ((Parser.new Gen.Syntax.table dl0 .lex false).machine false)).1 :=
+  C06_scan_indep_loop_resume C06_phaseSide_gen C06_emitsChecked_gen countCtl_stayScan countCtl_hashOnly countCtl_emit
+    (by decide) splitInput ds0 (defaultFuel splitInput) 14 _ _ _ _
+    (C06_aligned_initial' (by decide) false false obsR_0 scanMode_0)
+    (Prod.ext rfl (by decide +kernel)) (Prod.ext rfl (by decide +kernel))
 
 /-! ### `C06_independence_statement3` is false as stated -/
 
